@@ -18,9 +18,13 @@ def showEK : Option EK → String
   | some .perm => "perm"
 
 /-- `retry write r=<n> ms=<0|1> outs=<k:e,..> b=<hex> => off=<hex,..> acc=<hex> n=<n> err=<..>` -/
-def judgeRetry (r : Nat) (outs : List Outcome) (b : Bytes) (impl : List String) : Judged :=
+def judgeRetry (r : Nat) (outs : List Outcome) (b : Bytes) (impl : List String) (stream : Option Nat := none) : Judged :=
   let res := writeRetry b r outs
-  let modelOut := s!"off={",".intercalate (res.offered.map hexOrDash)} acc={hexOrDash res.accepted.flatten} n={res.n} err={showEK res.err}"
+  -- every attempt of a write to a multistream writer names the stream the message leaves on
+  let via := match stream with
+    | some s => s!" via={".".intercalate (List.replicate res.offered.length (toString s))}"
+    | none => ""
+  let modelOut := s!"off={",".intercalate (res.offered.map hexOrDash)} acc={hexOrDash res.accepted.flatten} n={res.n} err={showEK res.err}{via}"
   Id.run do
     let mut fails : List String := []
     let acc := ((kv impl "acc").bind fromHex).getD []
@@ -35,6 +39,10 @@ def judgeRetry (r : Nat) (outs : List Outcome) (b : Bytes) (impl : List String) 
     let expOff := (List.range offs.length).map (fun i => b.drop ((accLens.take i).foldl (· + ·) 0))
     if offs ≠ expOff then fails := "C07:offered-bytes-not-the-remaining-suffix" :: fails
     if offs.length > r + 1 then fails := "C07:more-attempts-than-budget" :: fails
+    match stream, kv impl "via" with
+    | some s, some v =>
+      if (v.splitOn ".").any (fun t => t ≠ toString s) then fails := "C16:retried-write-leaves-on-another-stream" :: fails
+    | _, _ => pure ()
     return { model := modelOut, fails := fails.reverse,
              tags := [s!"attempts={res.offered.length} err={showEK res.err} partial={decide (res.accepted.any (fun a => a.length > 0 ∧ a.length < b.length))}"] }
 
